@@ -84,6 +84,8 @@ pub struct Interp<'tcx> {
     pub trace_on: bool,
     pub trace_pat: String,
     pub reject_witness: Vec<Val>,
+    /// per active call: intervals of integer locals when their storage ends (only for probed calls)
+    pub scope_end: Vec<Option<std::collections::BTreeMap<u32, (i128, i128)>>>,
     pub max_depth: usize,
     pub pending_origin: Option<(u32, Ptr, u32)>,
     pub pending_bdef: Option<(u32, BoolDef)>,
@@ -160,6 +162,7 @@ impl<'tcx> Interp<'tcx> {
             trace_on: std::env::var("VERIF_TRACE").is_ok(),
             trace_pat: std::env::var("VERIF_TRACE").unwrap_or_default(),
             reject_witness: Vec::new(),
+            scope_end: Vec::new(),
             max_depth: 0,
             pending_origin: None,
             pending_bdef: None,
